@@ -7,6 +7,8 @@ C05 driver.  Case lines (`<ctx>` = `<type> <protocol> <direction> <registry> <pa
                      impl:  `ok left=<n> alloc=<bucket>[ <val>]` | `err alloc=<bucket>` | `panic` | `hang` | `crash` | `incons`
                      model: the schema decoder's outcome for types with an exact schema, the value too where the
                             schema is value-exact; otherwise the implementation's line is echoed (no prediction)
+  conc <child> <goroutines> <entry:hex,…>   valid AvailableCommands bodies of every protocol decoded concurrently in a fresh
+                     child process; impl: `ok decoded=… rejected=…` | `crash concurrent-map` | `crash`
   decx <ctx> <hex>   same, never modelled (payloads too deep/large for the model evaluation)
 verdict (the spec on the IMPLEMENTATION's outcome): a packet or an error, allocation in proportion → ok;
 `panic` (escaped RecoverFunc), `hang`, `crash` (process died), `incons` (Decoder and direct call disagree) or
@@ -32,6 +34,14 @@ def implVal (impl : String) : String :=
   | _ => ""
 
 def step (c : Case) : String × String :=
+  if c.op = "conc" then
+    -- concurrent decoding of valid bodies: the model's decoders are functions of their input only, so every
+    -- interleaving decodes everything (`Props.concurrent_read_only_never_faults`); the process must survive
+    let head := (c.impl.splitOn " ").headD ""
+    ((if head = "ok" then c.impl else "ok"),
+      if head = "ok" then "ok"
+      else if c.impl = "crash concurrent-map" then "viol:crash-concurrent-decode" else "viol:crash-concurrent-other")
+  else
   match parseCtx c.args with
   | some (name, ctx, [hx]) =>
     let v := verdict name c.impl
